@@ -333,8 +333,8 @@ func featureOf(h []op) []string {
 
 func Run(cfg fw.Config, rec *fw.Rec) {
 	log.SetOutput(io.Discard)
-	rec.Rule = "histories of 4-13 crew operations over machine ids {m1,m2,m3}: create (with/without state), replace state, replace spec (and, in a fifth of the histories, a spec that does not compile), delete, delete+re-create before the next report, re-create across messages (also byte-identical to an earlier create) - through captain messages and through direct SetMachine / DeleteMachine calls - interleaved with routed and broadcast messages to counter / recorder machines whose reactions commute; after every message the shadow store folded from Result.Changed must equal the live crew (existence, node, bindings, spec name); at every message boundary a crew booted from the JSON-round-tripped shadow must give the same emissions and machine states for the rest of the history; non-trivial = history with >= 2 crew operations other than messages; distinct by history"
-	rec.Required = []string{"shadow_equal_after_message", "restarts_compared", "replace_state", "replace_spec", "delete_recreate_before_report", "recreate_across_messages", "recreate_identical_to_an_earlier_create"}
+	rec.Rule = "histories of 4-13 crew operations over machine ids {m1,m2,m3}: create (with/without state), replace state, replace spec (and, in a fifth of the histories, a spec that does not compile), delete, delete+re-create before the next report, re-create across messages (also byte-identical to an earlier create) - through captain messages and through direct SetMachine / DeleteMachine calls - interleaved with routed and broadcast messages to counter / recorder machines whose reactions commute; after every message the shadow store folded from Result.Changed must equal the live crew (existence, node, bindings, spec name); at every message boundary a crew booted from the JSON-round-tripped shadow must give the same emissions and machine states for the rest of the history; end to end: the same kind of histories typed into a crew wired like sio/siostd (real Stdio coupling, state file rewritten after every message): the state file must equal the live crew, and a crew started from the state file written after a prefix must end like, and emit like, the uninterrupted one; non-trivial = history with >= 2 crew operations other than messages; distinct by history"
+	rec.Required = []string{"shadow_equal_after_message", "restarts_compared", "replace_state", "replace_spec", "delete_recreate_before_report", "recreate_across_messages", "recreate_identical_to_an_earlier_create", "stdio_state_file_equals_crew", "stdio_restarts_compared"}
 	rec.Assume = []string{"reactions of different machines to one message commute (machines only touch their own bindings and emit to nobody)", "a missing stored state is the default start/{} the boot path supplies", "service machines captain and timers are not compared"}
 	n := cfg.Pick(1200, 20000)
 	fw.Parallel(cfg.Workers, n, func(w, i int) {
@@ -455,7 +455,18 @@ func Run(cfg fw.Config, rec *fw.Rec) {
 			}
 		}
 	})
+	if runExtra != nil {
+		runExtra(cfg, rec)
+	}
 }
+
+func init() {
+	runExtra = func(cfg fw.Config, rec *fw.Rec) {
+		fw.Parallel(8, cfg.Pick(60, 800), func(w, i int) { stdioHistory(cfg, rec, i) })
+	}
+}
+
+var runExtra func(cfg fw.Config, rec *fw.Rec)
 
 func contains(s, sub string) bool {
 	for i := 0; i+len(sub) <= len(s); i++ {
